@@ -172,7 +172,16 @@ class Incarnation:
         sched_cfg = self.plan["sched"]
         rng = random.Random(sched_cfg["seed"])
         dec = DecisionSource(rng, sched_cfg["quanta"], sched_cfg["weights"], replay=sched_cfg.get("decisions"))
-        self.sched = Scheduler(dec, self._is_traced_code, self.event_log, step_cap=self.plan.get("step_cap", 400_000))
+        write_p = float(sched_cfg.get("write_p", 0.0))
+        write_sites = {}
+        if write_p > 0:
+            from dsim import sharedwrites
+
+            write_sites = sharedwrites.scan_tree(self.lcm_dir)
+        self.sched = Scheduler(
+            dec, self._is_traced_code, self.event_log, step_cap=self.plan.get("step_cap", 400_000),
+            write_sites=write_sites, write_p=write_p,
+        )
         bootstrap.STATE["sched"] = self.sched
 
         # log sink owned by the simulator; the level of the logger is left to lcm
@@ -567,7 +576,7 @@ class Incarnation:
         if vf is not None:
             kwargs["vf_arr_list"] = vf
         if op.get("seed") is not None:
-            kwargs["seed"] = op["seed"]
+            kwargs["seed"] = {"i64": np.int64, "i32": np.int32}.get(op.get("seed_t", "py"), int)(op["seed"])
         if op.get("targets"):
             kwargs["additional_targets"] = list(op["targets"])
         if os.environ.get("DSIM_DEBUG_IDS"):
